@@ -450,7 +450,30 @@ def rule_bindings_behind_dispatch_(ctx: Ctx, rep: Report) -> None:
     rep.floor("C02.bindings_behind_dispatch", 2)
 
 
+def rule_scalar_octets_from_the_order(ctx: Ctx, rep: Report) -> None:
+    """C02.scalar_octets_from_the_order: RFC6979's int2octets and bits2octets, and the
+    DER pad test, work at the length of the *order*: `Curve.n_size` is the
+    octets of n -- ceil(nlen / 8) -- not the field's. The two differ on the
+    curves whose order is one octet longer than their prime (secp160k1/r1/r2,
+    secp224k1), where a nonce derived at p's length is not RFC6979's."""
+    from sa import values as VX
+    rule = "C02.scalar_octets_from_the_order"
+    fi = ctx.func("btclib.curves.curve.Curve.__init__")
+    sets = [a for a in own_nodes(fi.node) if isinstance(a, ast.Assign) and any(norm(t) == "self.n_size" for t in a.targets)]
+    if len(sets) != 1:
+        rep.unknown(rule, "Curve.__init__", fi.where(), f"self.n_size is assigned {len(sets)} times")
+        return
+    vx = VX.of(fi)
+    vals = vx.value_of(sets[0]) or [VX.normal(sets[0].value)]
+    pats = ("($$n.bit_length() + 7) // 8", "(self.nlen + 7) // 8", "-(-self.nlen // 8)", "-(-$$n.bit_length() // 8)", "(7 + self.nlen) // 8")
+    ok = any(VX.has(v, p_) for v in vals for p_ in pats)
+    rep.ob(rule, "Curve.n_size", ok, fi.where(sets[0]), "ceil(nlen / 8)" if ok else f"`{norm(sets[0])}` is not the octet length of the order")
+    rep.floor(rule, 1)
+
+
 RULES = [
+    ("C02.scalar_octets_from_the_order", rule_scalar_octets_from_the_order),
+
     ("C02.bindings_behind_dispatch", rule_bindings_behind_dispatch_),
 
     ("C02.grind_test_is_der_pad", rule_grind_test_is_der_pad),
